@@ -64,14 +64,17 @@ func (m *Mutex) Unlock() {
 }
 
 type RWMutex struct {
-	mu sync.RWMutex
-	w  bool
-	r  int
+	mu    sync.RWMutex
+	w     bool
+	r     int
+	wwait int // writers blocked in Lock: as in sync.RWMutex they block new readers
 }
 
 func (m *RWMutex) Lock() {
 	if Wait != nil {
+		m.wwait++
 		Wait(func() bool { return !m.w && m.r == 0 })
+		m.wwait--
 		m.w = true
 		return
 	}
@@ -92,7 +95,7 @@ func (m *RWMutex) Unlock() {
 
 func (m *RWMutex) RLock() {
 	if Wait != nil {
-		Wait(func() bool { return !m.w })
+		Wait(func() bool { return !m.w && m.wwait == 0 })
 		m.r++
 		return
 	}
